@@ -10,7 +10,11 @@ def items():
 
 def run(tier='quick', seed=0, only=None):
     its = [i for i in items() if not only or only in i.cid]
-    return runner.run_property(PID, its, tier=tier, seed=seed, level='proof',
+    bounded = []
+    if not only:
+        from bounded import verdict_histories
+        bounded = [verdict_histories.component]      # the verdict along the history of one key object (bounded, not counted as proved)
+    return runner.run_property(PID, its, bounded=bounded, tier=tier, seed=seed, level='proof',
                                trusted_base=['pyvc symbolic executor', 'z3 5.1 / cvc5 1.0.3', 'CPython semantics of modelled builtins',
                                              'specs/verdict.py states the disqualifying set of the property statement'],
                                assumptions=['aggregate methods of SignatureVerification are proved for 0..3 examined signatures with fully '
